@@ -78,7 +78,7 @@ Qed.
 Theorem eval_strict_refines (c : circuit) (e : env) (v : bool) :
   eval_strict c e = Some v -> eval_stale c e = v.
 Proof.
-  unfold eval_strict, eval_stale.
+  unfold eval_strict, eval_stale, eval_levels_stale.
   destruct (c_width c) as [|w'] eqn:Hw.
   - intros H; injection H as <-; reflexivity.
   - destruct (levels_of c) as [lv|]; [|discriminate].
